@@ -17,6 +17,8 @@ SENDERS = [O(x) for x in ("0", "1", "2", "11", "111", "1111")]
 LEVELS = (None, 0, 1, 2, 3, 4)
 LENGTHS = (0, 5, 24, 25, 144)
 TYPES = (1, 65, 127, 130, 255)
+PRE_TYPE = 99  # message type of the unicasts of a pre-history (filtered out of the judged queues)
+PRE_MSG = b"earlier message"
 _templates = {}
 
 
@@ -51,7 +53,40 @@ def run_case(case):
     for r in case["relays"]:
         net.nodes[r].multicast_relay = True
     msg = H.pattern(case["mlen"], case.get("seed", 0), salt=11)
-    obs = {"ret": "unset", "c07": []}
+    obs = {"ret": "unset", "c07": [], "t_mc": 0}
+    pre = [tuple(x) for x in case.get("pre", [])]
+    delay = 260 * MS if pre else 1 * MS
+
+    def do_pre(key, op):
+        n = net.nodes[key]
+        lvl = N.level_of(key)
+        if op == "rebegin":
+            n.node_address = key
+        elif op == "unicast-ok":
+            n.send(H.RF24NetworkHeader(N.parent_of(key) if key else O("1"), PRE_TYPE), b"pre")
+        elif op == "unicast-fail" and lvl < 4:
+            n.send(H.RF24NetworkHeader(key | (4 << (3 * lvl)), PRE_TYPE), b"pre")
+        elif op == "multicast-same-type":
+            # an earlier multicast of the same type that the receivers have not dequeued yet
+            if case["level"] is None:
+                n.multicast(PRE_MSG, case["mtype"])
+            else:
+                n.multicast(PRE_MSG, case["mtype"], case["level"])
+        elif op.startswith("unicast-same-type:"):
+            # an earlier unicast of the same type to a node that will also hear the multicast
+            n.send(H.RF24NetworkHeader(int(op.split(":")[1]), case["mtype"]), PRE_MSG)
+        bad = N.listening_violations(n, net.radios[key])
+        if bad:
+            obs["c07"].append((key, tuple(bad)))
+
+    def pre_script(key):
+        def f(ctx):
+            ctx.wait(1 * MS)
+            for k, op in pre:
+                if k == key:
+                    do_pre(key, op)
+            net.serve(ctx, key, max(1, delay + 80 * MS - (w.now - net.built_at)), hook)
+        return f
 
     def hook(key, node, radio):
         bad = N.listening_violations(node, radio)
@@ -61,6 +96,12 @@ def run_case(case):
     def sender(ctx):
         n = net.nodes[src]
         ctx.wait(1 * MS)
+        for k, op in pre:
+            if k == src:
+                do_pre(src, op)
+        if pre:
+            net.serve(ctx, src, max(1, delay - (w.now - net.built_at)), hook)
+        obs["t_mc"] = w.now
         if case["level"] is None:
             obs["ret"] = n.multicast(msg, case["mtype"])
         else:
@@ -70,12 +111,15 @@ def run_case(case):
             obs["c07"].append((src, tuple(bad)))
         net.serve(ctx, src, 60 * MS, hook)
 
-    net.run({src: sender}, idle_hook=hook)
+    scripts = {src: sender}
+    for k in {k for k, _ in pre if k != src}:
+        scripts[k] = pre_script(k)
+    net.run(scripts, idle_hook=hook)
     obs["aborted"] = w.aborted
     obs["exc"] = {k: type(e).__name__ + ": " + str(e)[:80] for k, e in net.exc.items()}
-    obs["queues"] = net.queues()
+    obs["queues"] = {k: [g for g in q if g[2] != PRE_TYPE and g[3] != PRE_MSG] for k, q in net.queues().items()}
     obs["msg"] = msg
-    air = net.air()
+    air = [p for p in net.air() if p.start >= obs["t_mc"]]
     obs["npkts"] = len(air)
     obs["acks"] = [(p.src.name, p.addr.hex()) for p in air if p.is_ack]
     obs["want_ack"] = [(p.src.name, p.addr.hex()) for p in air if not p.is_ack and p.want_ack]
@@ -231,6 +275,29 @@ def build_items(tier, seed):
                             k += 1
                             cases.append(dict(src=src, level=lvl, relays=list(relays), allow_off=allow_off, mlen=mlen, mtype=TYPES[k % len(TYPES)],
                                               cost=c, lat=l, seed=seed, id0=(k * 131) & 0xFFFF))
+    # pre-histories: the multicast is preceded by unicast traffic (delivered / failed) or a
+    # re-assignment of the node address at the sender, at a receiver of the target level, at a relay
+    for src in SENDERS:
+        for lvl in (None, 1, 2, 3):
+            L = N.level_of(src) if lvl is None else lvl
+            recvs = [a for a in TOPO if N.level_of(a) == L and a != src]
+            if not recvs:
+                continue
+            recv = recvs[k % len(recvs)]
+            relay_ok = 1 <= L <= 3
+            pres = [[(recv, "unicast-ok")], [(recv, "unicast-fail")], [(recv, "rebegin")], [(src, "rebegin")], [(src, "unicast-ok")], [(src, "unicast-fail")],
+                    [(recv, "unicast-fail"), (recv, "unicast-ok")], [(src, "unicast-ok"), (recv, "rebegin"), (recv, "unicast-ok")],
+                    [(src, "multicast-same-type")], [(src, "unicast-same-type:%d" % recv)], [(src, "multicast-same-type"), (src, "multicast-same-type")]]
+            for pre in pres:
+                for relays in ([], [recv] if relay_ok else None):
+                    if relays is None:
+                        continue
+                    k += 1
+                    cases.append(dict(src=src, level=lvl, relays=list(relays), allow_off=None, mlen=(5, 25)[k % 2], mtype=TYPES[k % len(TYPES)],
+                                      cost=(k // 2) % 4, lat=k % 2, seed=seed, id0=(k * 131) & 0xFFFF, pre=[list(x) for x in pre],
+                                      mtype_fixed=True))
+                    if any("same-type" in x[1] for x in pre):
+                        cases[-1]["mtype"] = 7  # (a user type that is neither relayed specially nor network-acknowledged)
     return [cases[i:i + 25] for i in range(0, len(cases), 25)]
 
 
@@ -244,7 +311,8 @@ def run(tier, seed, rep, only=None):
         exhaustive=True,
         rule="every sender class (master, first child 0o1, another level-1 node, levels 2, 3, 4) x target level {default,0..4} x relay configuration "
              "(off / on at exactly one node of levels 1-3 / on everywhere) x allow_multicast off at one node x message length x timing classes on a "
-             "populated 5-level tree of 9 real nodes; non-trivial = distinct case (every case transmits or must transmit).",
+             "populated 5-level tree of 9 real nodes; plus 11 pre-histories (delivered / failed unicast, node-address re-assignment at sender, receiver, relay; earlier multicast / unicast of the same type not yet dequeued) "
+             "before the multicast; non-trivial = distinct case (every case transmits or must transmit).",
         bounds=dict(topology=["%o" % a for a in TOPO], senders=["%o" % a for a in SENDERS], levels=[str(x) for x in LEVELS], lengths=list(LENGTHS), types=list(TYPES)),
         trusted_base=["vf/sim.py", "vf/net.py"],
         assumptions=["loss-free medium; a receiver whose RX FIFO overflowed, or a run with an on-air collision between relays, is excused from the "
